@@ -1,7 +1,7 @@
 /-
   C07 — dual hashes are a lossless, canonical encoding of raw plus normalized.
 -/
-import FfuzzyProofs.Dual.Expand
+import FfuzzyProofs.Dual.Valid
 import FfuzzyProofs.Properties.C06
 import FfuzzyProofs.Properties.C16
 namespace Ffuzzy.C07
@@ -261,5 +261,70 @@ theorem dual_normalize (s2 : Nat) (hs2 : s2 = 32 ∨ s2 = 64) (h : FH) (hv : FH.
   refine ⟨?_, ?_⟩
   · rw [hd]; rfl
   · rw [hd]; rfl
+
+/-- the RLE block of a valid raw block hash is accepted by `is_valid_rle_block_for_block_hash` -/
+theorem rle_block_valid (n c : Nat) (hn : n ≤ 64) (bh : List UInt8) (len : UInt8) (hv : FH.BhValid n false bh len) :
+    isValidRleBlock (padTo (collapse (bh.take len.toNat)) n 0) (rleOf c (bh.take len.toNat))
+      (collapse (bh.take len.toNat)).length.toUInt8 = true := by
+  have hx : ∀ s ∈ bh.take len.toNat, s ≠ b64Invalid := FH.sym_ne_invalid hv.sym
+  have hxl : (bh.take len.toNat).length = len.toNat := by
+    rw [List.length_take, hv.arr]; exact Nat.min_eq_left hv.len_le
+  have hco := compress_out (bh.take len.toNat) hx
+  obtain ⟨hec, hpos⟩ := expand_compress (bh.take len.toNat) hx
+  have hgood := compressA_good (bh.take len.toNat) hx
+  have hb := bnd_fold (bh.take len.toNat) {} [] bnd_init (fun _ => rfl) hx
+  simp only [List.nil_append] at hb
+  obtain ⟨ps1, ps2⟩ := pending_sorted _ _ hb
+  rw [hco] at hec hpos hgood
+  have hcl : (collapse (bh.take len.toNat)).length ≤ n := by
+    have := collapse_length_le (bh.take len.toNat); rw [hxl] at this; have := hv.len_le; omega
+  have hLn : (collapse (bh.take len.toNat)).length.toUInt8.toNat = (collapse (bh.take len.toNat)).length := by
+    simp [Nat.toUInt8, UInt8.toNat_ofNat']; omega
+  obtain ⟨pt1, pt2⟩ := padTo_take (collapse (bh.take len.toNat)) n 0 hcl
+  have hspec := rleValidLoop_spec (padTo (collapse (bh.take len.toNat)) n 0) (collapse (bh.take len.toNat)).length.toUInt8
+    (by rw [hLn, pt2]; exact hcl) (compressA (bh.take len.toNat)).2
+    (List.replicate (c - ((compressA (bh.take len.toNat)).2.map encodeEnt).length) 0)
+    (collapse (bh.take len.toNat)).length.toUInt8.toNat 0 0
+    (by rw [hLn, pt1]; exact hgood) (fun e he => by have := hpos e he; omega)
+    (fun t ht => (List.mem_replicate.mp ht).2)
+  -- total expanded length = raw length
+  have hA : (compressA (bh.take len.toNat)).2 =
+      ((bh.take len.toNat).foldl step {}).ents ++ pending ((bh.take len.toNat).foldl step {}) := rfl
+  have hlen := after_length (collapse (bh.take len.toNat)) (compressA (bh.take len.toNat)).2 0 [] (Nat.zero_le _)
+    (fun e he => Nat.le_of_lt (hpos e he)) (by rw [hA]; exact ps1) (fun _ _ => Nat.zero_le _)
+  have hex : expandA (collapse (bh.take len.toNat)) (compressA (bh.take len.toNat)).2 =
+      (after (collapse (bh.take len.toNat)) (compressA (bh.take len.toNat)).2 (0, [])).2 ++
+        (collapse (bh.take len.toNat)).drop (after (collapse (bh.take len.toNat)) (compressA (bh.take len.toNat)).2 (0, [])).1 := by
+    unfold expandA; exact expandGo_after _ _ 0 []
+  have hl2 := congrArg List.length hec
+  rw [hex] at hl2
+  simp only [List.length_append, List.length_drop, List.length_nil, Nat.sub_zero, Nat.zero_add] at hl2 hlen
+  unfold isValidRleBlock rleOf
+  change (match rleValidLoop _ _ ((compressA (bh.take len.toNat)).2.map encodeEnt ++
+    List.replicate (c - ((compressA (bh.take len.toNat)).2.map encodeEnt).length) 0) _ false 0 0 with
+    | none => false | some expanded => !decide (expanded > (padTo (collapse (bh.take len.toNat)) n 0).length)) = true
+  rw [hspec, hLn, pt2]
+  simp only [Bool.not_eq_true', decide_eq_false_iff_not, Nat.not_lt]
+  have := hv.len_le
+  omega
+
+/-- **C07 (validity).** the dual hash of every valid raw hash passes `is_valid` -/
+theorem dual_valid (s2 : Nat) (hs2 : s2 = 32 ∨ s2 = 64) (h : FH) (hv : FH.Valid s2 false h) :
+    DH.isValid s2 (dualOf s2 h) = true := by
+  have hle : s2 ≤ 64 := by rcases hs2 with e | e <;> omega
+  obtain ⟨hvn, _, _, _⟩ := C06.normalize_eq_collapse s2 hle h hv
+  have hno := normalize_obj s2 hle h hv
+  have v1 := rle_block_valid FULL_SIZE DH.c1 (by decide) h.bh1 h.len1 hv.b1
+  have v2 := rle_block_valid s2 (DH.c2 s2) hle h.bh2 h.len2 hv.b2
+  unfold DH.isValid dualOf
+  simp only
+  rw [(FH.isValid_iff s2 true _ hvn.b1.arr hvn.b2.arr).mpr hvn]
+  rw [hno]
+  simp only [Bool.true_and]
+  change (isValidRleBlock (padTo (collapse (h.bh1.take h.len1.toNat)) FULL_SIZE 0) (rleOf DH.c1 (h.bh1.take h.len1.toNat))
+      (collapse (h.bh1.take h.len1.toNat)).length.toUInt8 &&
+    isValidRleBlock (padTo (collapse (h.bh2.take h.len2.toNat)) s2 0) (rleOf (DH.c2 s2) (h.bh2.take h.len2.toNat))
+      (collapse (h.bh2.take h.len2.toNat)).length.toUInt8) = true
+  rw [v1, v2]; rfl
 
 end Ffuzzy.C07
